@@ -50,7 +50,7 @@ public:
 	std::string kind;          // FILE_SEEK FILE_PIPE FILE_HALFSEEK CB_SKIP CB_NOSKIP
 	const Bytes *data = nullptr;
 	size_t pos = 0;
-	int64_t trunc = -1, errat = -1, skipfail = -1;
+	int64_t trunc = -1, errat = -1, skipfail = -1, prepos = 0;
 	int seekerr = 0, skippast = 0, endless = 0, erronce = 0, errerrno = 5;
 	uint64_t reads = 0, skips = 0, bytes = 0, eof_reads = 0, seeks = 0;
 	bool closed = false, err_fired = false, eof_hit = false;
@@ -97,6 +97,7 @@ struct Sim {
 	bool fdopen_fail = false;
 	SimSource *archive_src = nullptr;   // served when the archive inode is fopen()ed
 	int archive_ino = -1;
+	std::map<int, SimSource *> by_name_srcs;   // further archives opened by name: inode -> the source that serves it
 	// clock
 	bool clock_on = false;
 	int64_t now = 0;
